@@ -281,3 +281,30 @@ func vReplay(t *testing.T) {
 		t.Logf("replay of %s passes", path)
 	}
 }
+
+// vFuzzProp exposes the same generator and checker to Go's native coverage-guided fuzzer (thorough tier): the fuzz
+// input is the bit stream rapid draws from. A failure writes the case file like vRunProp does.
+func vFuzzProp[C any](f *testing.F, id string, gen func(*rapid.T) *C, check func(*C, *VStats) *VFailure) {
+	known := loadKnownSigs()
+	st := newVStats(id)
+	// seed corpus: long bit streams (the generators consume hundreds of bytes; short inputs are rejected at once).
+	// A fixed linear congruential sequence - no RNG of our own at run time, the corpus is a constant.
+	for k := uint32(1); k <= 6; k++ {
+		buf := make([]byte, 16384)
+		x := k * 2654435761
+		for i := range buf {
+			x = x*1664525 + 1013904223
+			buf[i] = byte(x >> 24)
+		}
+		f.Add(buf)
+	}
+	f.Fuzz(rapid.MakeFuzz(func(rt *rapid.T) {
+		c := gen(rt)
+		fl := safeCheck(check, c, st)
+		if fl == nil || (fl.Sig != "" && known[id+":"+fl.Sig]) {
+			return
+		}
+		writeCaseFile(id, c, fl)
+		rt.Fatalf("%s", fl.Msg)
+	}))
+}
